@@ -8,7 +8,6 @@ import (
 	"0chain.net/chaincore/block"
 	"0chain.net/chaincore/node"
 	"verifharness/checks/c44kit"
-	"verifharness/vkit"
 )
 
 // C44 part (a): one round.Round shared by generated concurrent programs, race
@@ -19,7 +18,6 @@ import (
 // has published it through the round; after that others see the published one.
 
 func TestC44_Round(t *testing.T) {
-	vkit.For("C44").SetRule("generated concurrent programs: 2..4 goroutines x 1..6 operations (plus 0..4 sequential set-up operations) over one shared object, each program repeated on fresh objects; objects: (a) one round.Round, (b) one block.Block, (c) miner ValidateTransactions over multi-batch blocks, (d) one chain.Chain's block/round maps; operations are the calls real miner/sharder workers and handlers make; oracle: race detector silent (GORACE halt_on_error), every program finishes (watchdog), quiescent-state invariants; non-trivial = a program with two goroutines whose operations touch a common part of the object with at least one writer; distinct by (object, set of conflicting operation pairs)")
 	const (
 		nMiners = 5
 		nBlocks = 4 // distinct block hashes of the round
